@@ -354,3 +354,45 @@ def replay_native(crate, harness, replay_file, timeout=1800):
         'panic': (m.group(1) + ' ' + m.group(2)) if m else None,
         'output_tail': (out + err)[-2500:],
     }
+
+
+def run_sampled(crate, harnesses, n=20000, seed=1, timeout=1800):
+    """Run `sampled_*` contract harnesses natively on PRNG draws (draw.rs, third driver).  A sampled check can only
+    find counterexamples (written as replay files); it is never counted as discharged."""
+    env = dict(os.environ)
+    env['RUSTFLAGS'] = '--cfg libtw2_verif'
+    env['CARGO_TARGET_DIR'] = os.path.join(CACHE, 'replay')
+    env['VERIF_SAMPLE'] = '%d:%d' % (n, seed)
+    prefix = os.path.join(VERIF, 'replays', 'sample_')
+    os.makedirs(os.path.dirname(prefix), exist_ok=True)
+    env['VERIF_SAMPLE_OUT'] = prefix
+    env['RUST_BACKTRACE'] = '0'
+    env.pop('VERIF_REPLAY', None)
+    for h in harnesses:
+        try:
+            os.remove(prefix + h + '.txt')
+        except OSError:
+            pass
+    cmd = ['cargo', 'test', '--offline', '-p', crate, '--lib', 'verif_kani::proofs::sampled_', '--', '--nocapture']
+    rc, out, err, wall = _run(cmd, cwd=REPO, env=env, timeout=timeout)
+    text = out + err
+    res = []
+    for h in harnesses:
+        m = re.search(r'SAMPLED harness=%s iterations=(\d+) passed_precondition=(\d+)' % re.escape(h), text)
+        st = re.search(r'test (?:\w+::)*verif_kani::proofs::%s \.\.\. (\w+)' % re.escape(h), text)
+        if not st:
+            st2 = re.search(r'verif_kani::proofs::%s' % re.escape(h), text)
+        cx = re.search(r'SAMPLED-COUNTEREXAMPLE harness=%s panic=([^\n]*)' % re.escape(h), text)
+        r = {'harness': h, 'iterations': int(m.group(1)) if m else 0, 'accepted': int(m.group(2)) if m else 0,
+             'replay_file': prefix + h + '.txt', 'panic': cx.group(1) if cx else None}
+        failed = bool(cx) or ('%s ... FAILED' % h) in text or re.search(r'%s stdout ----' % re.escape(h), text) is not None and 'FAILED' in text
+        if cx and os.path.exists(r['replay_file']):
+            r['status'] = 'fail'
+        elif m and not failed and r['accepted'] > 0:
+            r['status'] = 'ok'
+        else:
+            r['status'] = 'undecided'
+            r['reason'] = 'sampled harness did not run (build error / filtered out / vacuous): ' + text[-800:].replace('\n', ' / ')
+        res.append(r)
+    return {'crate': crate, 'cmd': 'cd %s && RUSTFLAGS="--cfg libtw2_verif" VERIF_SAMPLE=%d:%d %s' % (REPO, n, seed, ' '.join(cmd)),
+            'wall_s': wall, 'harnesses': res, 'rc': rc}
